@@ -423,9 +423,9 @@ pub fn property() -> Property {
         post: None,
         parts: vec![
             Box::new(Part { name: "codec-sweep", driver: Driver::Enum(sweep_cases), prop: prop_sweep, exhaustive: true }),
-            Box::new(Part { name: "roundtrip", driver: Driver::Gen(roundtrip_strategy, 40_000, 160_000), prop: prop_roundtrip, exhaustive: false }),
+            Box::new(Part { name: "roundtrip", driver: Driver::Gen(roundtrip_strategy, 40_000, 640_000), prop: prop_roundtrip, exhaustive: false }),
             Box::new(Part { name: "edit-big", driver: Driver::Enum(big_cases), prop: prop_history, exhaustive: false }),
-            Box::new(Part { name: "edit-histories", driver: Driver::Gen(history_strategy, 40_000, 160_000), prop: prop_history, exhaustive: false }),
+            Box::new(Part { name: "edit-histories", driver: Driver::Gen(history_strategy, 40_000, 640_000), prop: prop_history, exhaustive: false }),
         ],
     }
 }
